@@ -720,6 +720,20 @@ def m_slice_last(ex, a, callee, canon):
     v = deref(a[0])
     if isinstance(v, (ListV, Arr)):
         return some(Ptr(v.f, len(v.f) - 1)) if v.f else NONE()
+    if isinstance(v, Bytes):
+        s = v.s
+        k = s.decl().kind()
+        if k == z3.Z3_OP_SEQ_EMPTY:
+            return NONE()
+        if k == z3.Z3_OP_SEQ_UNIT:
+            return some(Ptr([Int(s.arg(0), "u8")], 0))
+        if k == z3.Z3_OP_SEQ_CONCAT and s.arg(s.num_args() - 1).decl().kind() == z3.Z3_OP_SEQ_UNIT:
+            return some(Ptr([Int(s.arg(s.num_args() - 1).arg(0), "u8")], 0))
+        if k == z3.Z3_OP_UNINTERPRETED:
+            # opaque byte string: empty or (INIT(s) ++ [LAST(s)]) with uninterpreted LAST/INIT
+            if ex.decide(ex.seq_len(s) == 0):
+                return NONE()
+            return some(Ptr([Int(uf("SEQ_LAST", SEQ, z3.BitVecSort(8))(s), "u8")], 0))
     raise Unsupported(f"last on {v!r}")
 
 
@@ -777,6 +791,8 @@ def val_eq(ex, x, y):
         return z3.And(*[val_eq(ex, p, q) for p, q in zip(x.f, y.f)]) if x.f else z3.BoolVal(True)
     if isinstance(x, Unit) and isinstance(y, Unit):
         return z3.BoolVal(True)
+    if isinstance(x, Opaque) and isinstance(y, Opaque) and x.tag == y.tag and isinstance(x.payload, Bytes) and isinstance(y.payload, Bytes):
+        return x.payload.s == y.payload.s   # injective constructors (Base58 strings)
     raise Unsupported(f"equality of {x!r} and {y!r}")
 
 
@@ -859,3 +875,255 @@ def m_panic(ex, a, callee, canon):
 @model(r"ECDSA>?::sign_with_deterministic_k_impl$|ECDSA>?::sign_with_k_impl$")
 def m_ecdsa_sign(ex, a, callee, canon):
     return ok(Opaque("Signature"))
+
+
+# ------------------------------------------------------------------ slices with ranges, fixed-size conversions
+def range_bounds(ex, r, n):
+    """Range-like struct -> (lo, hi) concrete ints for a container of concrete length n"""
+    r = deref(r)
+    if isinstance(r, Struct) and r.name == "Range":
+        lo, hi = r.f[0].concrete(), r.f[1].concrete()
+    elif isinstance(r, Struct) and r.name == "RangeFrom":
+        lo, hi = r.f[0].concrete(), n
+    elif isinstance(r, Struct) and r.name == "RangeTo":
+        lo, hi = 0, r.f[0].concrete()
+    elif isinstance(r, Struct) and r.name == "RangeFull":
+        lo, hi = 0, n
+    else:
+        raise Unsupported(f"range {r!r}")
+    if lo is None or hi is None:
+        raise Unsupported("symbolic slice bounds")
+    return lo, hi
+
+
+@model(r"^<\[u8\] as Index(Mut)?<Range(From|To|Full)?<usize>>>::index(_mut)?$|^<Vec<u8> as Index(Mut)?<Range(From|To|Full)?<usize>>>::index(_mut)?$|^core::slice::index::<impl Index<Range(From|To)?<usize>> for \[u8\]>::index$")
+def m_index_range(ex, a, callee, canon):
+    v = deref(a[0])
+    s = ex.bytes_of(v)
+    items = ex.seq_items(s)
+    if items is None:
+        # symbolic length: only `[..len-1]` / `[0..len-1]` of a string that ends in a single byte (strip the last byte)
+        r = deref(a[1])
+        if isinstance(r, Struct) and r.name in ("Range", "RangeTo") and z3.is_app(s) and s.decl().kind() == z3.Z3_OP_SEQ_CONCAT:
+            lo_ok = r.name == "RangeTo" or r.f[0].concrete() == 0
+            hi = r.f[-1]
+            lastp = s.arg(s.num_args() - 1)
+            if lo_ok and lastp.decl().kind() == z3.Z3_OP_SEQ_UNIT:
+                prefix = seq_concat(*[s.arg(i) for i in range(s.num_args() - 1)])
+                if z3.is_true(z3.simplify(hi.t == ex.seq_len(prefix))) or z3.is_true(z3.simplify(hi.t == ex.seq_len(s) - 1)):
+                    return Ptr([Bytes(prefix)], 0)
+        if isinstance(r, Struct) and r.name in ("Range", "RangeTo") and z3.is_app(s) and s.decl().kind() == z3.Z3_OP_UNINTERPRETED:
+            lo_ok = r.name == "RangeTo" or r.f[0].concrete() == 0
+            hi = r.f[-1]
+            if lo_ok and z3.is_true(z3.simplify(hi.t == ex.seq_len(s) - 1)):
+                if not ex.decide(z3.UGE(ex.seq_len(s), 1)):
+                    raise PathPanic("range end index out of range (len - 1 underflow)")
+                init = uf("SEQ_INIT", SEQ, SEQ)(s)
+                if not hasattr(ex, "len_vars"):
+                    ex.len_vars = {}
+                ex.len_vars[init.get_id()] = ex.seq_len(s) - 1
+                return Ptr([Bytes(init)], 0)
+        raise Unsupported("range-slicing a byte string of symbolic length")
+    lo, hi = range_bounds(ex, a[1], len(items))
+    if lo > hi:
+        raise PathPanic(f"slice index starts at {lo} but ends at {hi}")
+    if hi > len(items):
+        raise PathPanic(f"range end index {hi} out of range for slice of length {len(items)}")
+    return Ptr([Arr([Int(t, "u8") for t in items[lo:hi]])], 0)
+
+
+@model(r"^GenericArray::from_slice$|^GenericArray::clone_from_slice$")
+def m_ga_from_slice(ex, a, callee, canon):
+    v = deref(a[0])
+    items = ex.seq_items(ex.bytes_of(v))
+    if items is None:
+        raise Unsupported("GenericArray::from_slice on symbolic-length bytes")
+    want = getattr(ex, "ga_len", {}).get(id(ex), None)
+    arr = Arr([Int(t, "u8") for t in items])
+    return Ptr([arr], 0) if canon.endswith("from_slice") else arr
+
+
+@model(r"^<GenericArray<.*> as Deref(Mut)?>::deref(_mut)?$|^<GenericArray<.*> as AsRef<\[u8\]>>::as_ref$|^GenericArray::as_slice$")
+def m_ga_deref(ex, a, callee, canon):
+    return a[0]
+
+
+@model(r"^<(&\[u8\]|&Vec<u8>|&\[u8; \d+\]) as TryInto<\[u8; (\d+)\]>>::try_into$|^<\[u8; (\d+)\] as TryFrom<&\[u8\]>>::try_from$")
+def m_try_into_array(ex, a, callee, canon):
+    n = int(re.search(r"\[u8; (\d+)\]", canon.split(" as ")[1] if "TryInto" in canon else canon).group(1))
+    s = ex.bytes_of(a[0])
+    items = ex.seq_items(s)
+    if items is None:
+        # symbolic length: Ok iff length == n; on Ok the array elements are fresh bytes tied to the source by equality
+        L = ex.seq_len(s)
+        if ex.decide(L == z3.BitVecVal(n, 64)):
+            raise Unsupported("try_into::<[u8;N]> on symbolic-length bytes (accepted branch)")
+        return err("TryFromSliceError")
+    if len(items) != n:
+        return err("TryFromSliceError")
+    return ok(Arr([Int(t, "u8") for t in items]))
+
+
+@model(r"^Option::or_else$")
+def m_or_else(ex, a, callee, canon):
+    o = a[0]
+    if o.variant == "Some":
+        return o
+    return ex.call_closure(a[1], [])
+
+
+@model(r"^Option::unwrap_or_default$|^Result::unwrap_or_default$")
+def m_unwrap_or_default2(ex, a, callee, canon):
+    o = a[0]
+    if o.variant in ("Some", "Ok"):
+        return o.f[0]
+    ty = generic_arg(callee, 0) or ""
+    d = ex.P.resolve(f"<{ty} as Default>::default")
+    if d is None:
+        raise Unsupported("Default for " + ty)
+    return ex.call_fn(d, [])
+
+
+MODELS.sort(key=lambda m: 0 if m[1].__name__ in ("m_unwrap_or_default2",) else 1)
+
+
+# ------------------------------------------------------------------ k256 / ecdsa: opaque scalars and signatures (EC arithmetic is outside E2)
+@model(r"^ecdsa::Signature::from_scalars$")
+def m_sig_from_scalars(ex, a, callee, canon):
+    r, s = deref(a[0]), deref(a[1])
+    valid = uf("VALID_RS", z3.BitVecSort(256), z3.BitVecSort(256), z3.BoolSort())
+    rt = z3.Concat(*[e.t for e in r.f])
+    st = z3.Concat(*[e.t for e in s.f])
+    if ex.decide(valid(rt, st)):
+        return ok(Struct("SecpSignature", [clone(r), clone(s)]))
+    return err("ecdsa::Error")
+
+
+@model(r"^ecdsa::Signature::(r|s)$")
+def m_sig_rs(ex, a, callee, canon):
+    sig = deref(a[0])
+    return Struct("NonZeroScalar", [Struct("Scalar", [clone(sig.f[0 if canon.endswith("::r") else 1])])])
+
+
+@model(r"^<NonZeroScalar<.*> as Deref>::deref$")
+def m_nzs_deref(ex, a, callee, canon):
+    v = deref(a[0])
+    return Ptr(v.f, 0)
+
+
+@model(r"^k256::Scalar::to_bytes$|^<k256::Scalar as PrimeField>::to_repr$")
+def m_scalar_to_bytes(ex, a, callee, canon):
+    return clone(deref(a[0]).f[0])
+
+
+# ------------------------------------------------------------------ Base58: injective constructor (decode inverts encode); alphabet arithmetic is outside
+class B58:
+    pass
+
+
+@model(r"^bs58::encode$")
+def m_bs58_encode(ex, a, callee, canon):
+    return Opaque("b58builder", Bytes(ex.bytes_of(a[0])))
+
+
+@model(r"^bs58::encode::EncodeBuilder<.*>::into_string$|EncodeBuilder::into_string$")
+def m_bs58_into_string(ex, a, callee, canon):
+    return Opaque("b58string", a[0].payload)
+
+
+# ------------------------------------------------------------------ recording opaque crypto entry points (who is called with what)
+def record(ex, name, args):
+    if not hasattr(ex, "recorded"):
+        ex.recorded = []
+    ex.recorded.append((name, args))
+
+
+def _sign_model(ex, a, callee, canon):
+    record(ex, canon.rsplit("::", 1)[1], a)
+    return ok(Opaque("Signature"))
+
+
+for _i, (_rx, _fn) in enumerate(MODELS):
+    if _fn.__name__ == "m_ecdsa_sign":
+        MODELS[_i] = (_rx, _sign_model)
+
+
+@model(r"(^|::)Signature::get_public_key$")
+def m_sig_get_public_key(ex, a, callee, canon):
+    record(ex, "get_public_key", a)
+    okp = uf("RECOVER_OK", SEQ, z3.BoolSort())
+    msg = ex.bytes_of(a[1])
+    if not ex.decide(okp(msg)):
+        return err("recover")
+    point = [z3.BitVec(f"recovered_point_{i}", 8) for i in range(33)]
+    return ok(Struct("PublicKey", [Bytes(seq_of(point)), Bool(True)]))
+
+
+@model(r"ECDSA>?::verify_digest_impl$")
+def m_verify_digest(ex, a, callee, canon):
+    record(ex, "verify_digest_impl", a)
+    if ex.decide(z3.Bool("VERIFY_OK")):
+        return ok(Bool(True))
+    return err("verify")
+
+
+@model(r"(^|::)Script::from_asm_string$")
+def m_from_asm_string(ex, a, callee, canon):
+    return ok(Struct("Script", [Bytes(z3.Const("asm_script", SEQ))]))
+
+
+@model(r"^hex::encode$|(^|::)Signature::to_der_hex$|(^|::)SighashSignature::to_hex_impl$|(^|::)PublicKey::to_hex_impl$|(^|::)P2PKHAddress::to_pubkey_hash_hex$")
+def m_hexish(ex, a, callee, canon):
+    if canon.endswith("to_hex_impl"):
+        return ok(Opaque("hex"))
+    return Opaque("hex")
+
+
+@model(r"^<String as Deref(Mut)?>::deref(_mut)?$|^String::as_str$|^<String as AsRef<str>>::as_ref$")
+def m_string_deref(ex, a, callee, canon):
+    return a[0]
+
+
+# ------------------------------------------------------------------ DER (k256/ecdsa): opaque parser with an uninterpreted validity predicate
+@model(r"^ecdsa::Signature::from_der$")
+def m_sig_from_der(ex, a, callee, canon):
+    seq = ex.bytes_of(a[0])
+    if ex.decide(uf("DER_VALID", SEQ, z3.BoolSort())(seq)):
+        return ok(Struct("SecpSignatureDER", [Bytes(seq)]))
+    return err("ecdsa::Error")
+
+
+@model(r"^ecdsa::Signature::to_der$")
+def m_sig_to_der(ex, a, callee, canon):
+    sig = deref(a[0])
+    if isinstance(sig, Struct) and sig.name == "SecpSignatureDER":
+        return Struct("DerSignature", [Bytes(sig.f[0].s)])
+    if isinstance(sig, Struct) and sig.name == "SecpSignature":
+        rt = z3.Concat(*[e.t for e in sig.f[0].f])
+        st = z3.Concat(*[e.t for e in sig.f[1].f])
+        return Struct("DerSignature", [Bytes(uf("DER_ENCODE", z3.BitVecSort(256), z3.BitVecSort(256), SEQ)(rt, st))])
+    return Struct("DerSignature", [Bytes(z3.Const("der_of_opaque_signature", SEQ))])
+
+
+@model(r"^ecdsa::der::Signature::as_bytes$|^<ecdsa::der::Signature<.*> as AsRef<\[u8\]>>::as_ref$")
+def m_der_as_bytes(ex, a, callee, canon):
+    return Ptr(deref(a[0]).f, 0)
+
+
+@model(r"^<(\w+::)*SigHash as (num_traits::)?FromPrimitive>::from_(u8|u32|u64|i32|i64)$")
+def m_sighash_from_primitive(ex, a, callee, canon):
+    v = a[0]
+    for name, d in ex.P.enums["SigHash"].items():
+        if d < 0 or d >= (1 << v.t.size()):
+            continue
+        if ex.decide(v.t == z3.BitVecVal(d, v.t.size())):
+            return some(Enum("SigHash", name, d))
+    return NONE()
+
+
+@model(r"^<u8 as TryInto<(\w+::)*SigHash>>::try_into$")
+def m_u8_try_into_sighash(ex, a, callee, canon):
+    d = ex.P.resolve("<SigHash as TryFrom<u8>>::try_from")
+    if d is None:
+        raise Unsupported("TryFrom<u8> for SigHash not found")
+    return ex.call_fn(d, a)
